@@ -103,12 +103,15 @@ contract(ENT + '._parse_response[AuthnResponse]', variant_of=ENT + '._parse_resp
          consts={'service': 'assertion_consumer_service'},
          types={'xmlstr': 'Any', 'response_cls': "Cls('%s')" % ARQ, 'binding': 'Opt(Str)', 'outstanding_certs': 'Any',
                 'kwargs': 'Dict(Str, Any)'},
-         returns="Opt(Inst('%s'))" % ARQ, feas_ms=60, merge_exits=False,
+         returns="Opt(Inst('%s'))" % ARQ, feas_ms=60, merge_exits='raises',
          requires=[_KWSET, 'forall(lambda k: implies(has_key(kwargs, k), %s), "Val")' % ' or '.join("k == '%s'" % k for k in _KW),
                    "is_str(kwargs['entity_id'])", "kwargs['valid_destination_regex'] is None or is_str(kwargs['valid_destination_regex'])",
                    "typed(kwargs['return_addrs'], 'Opt(List(Str))')", "kwargs['conv_info'] is None or typed(kwargs['conv_info'], 'Dict(Str, Any)')",
                    "kwargs['outstanding_queries'] is None or typed(kwargs['outstanding_queries'], 'Dict(Str, Any)')",
-                   'outstanding_certs is None'],
+                   'outstanding_certs is None',
+                   # the three signature options are configuration booleans (or unset)
+                   "typed(kwargs['want_response_signed'], 'Opt(Bool)')", "typed(kwargs['want_assertions_signed'], 'Opt(Bool)')",
+                   "typed(kwargs['want_assertions_or_response_signed'], 'Opt(Bool)')"],
          hints={('keys', 'kwargs'): _KW},
          lets={'Wr': "truthy(kwargs['want_response_signed'])", 'Wa': "truthy(kwargs['want_assertions_signed'])",
                'We': "truthy(kwargs['want_assertions_or_response_signed'])"},
@@ -135,7 +138,10 @@ contract(ENT + '._parse_response[AuthnResponse]', variant_of=ENT + '._parse_resp
              ('C02-flags-restored', 'implies(result is not None, truthy(%s.require_response_signature) == Wr and '
                                     'truthy(%s.require_signature) == Wa)' % (_R, _R))],
          raises={'Exception': 'True'},
-         modifies=['dict(kwargs)', 'lists', 'dicts', '*.assertion', '*.encrypted_assertion', '*.subject_confirmation'],
+         modifies=['dict(kwargs)', 'lists', 'dicts', '*.assertion', '*.encrypted_assertion', '*.subject_confirmation',
+                   '*.assertions', '*.ava', '*.came_from', '*.name_id', '*.not_on_or_after', '*.session_not_on_or_after',
+                   '*.xmlstr', '*.origxml', '*.response', '*.in_response_to', '*.require_signature',
+                   '*.require_response_signature'],
          loops={0: {'inv': []}},
          clauses_from={'C02': ['C02-response-signature-required', 'C02-assertion-signatures-required', 'C02-either-or',
                                'C02-present-response-signature-verified', 'C02-present-assertion-signatures-verified',
